@@ -101,7 +101,13 @@ func shapesStr(in []*ref.T) string {
 
 /* ---------------- C03 ---------------- */
 
+func c03Ops(s []int) []ref.Op {
+	ops := []ref.Op{{K: "Scale", F: 2}, {K: "Exp"}, {K: "Sin"}, {K: "Pow", F: 2}, {K: "Tanh"}, {K: "Add"}, {K: "Mul"}, {K: "Sub"}, {K: "Div"}, {K: "ElMax"}, {K: "Gt"}, {K: "Eq"}}
+	return ops
+}
+
 func checkC03(c *core.Ctx) {
+	sameOperandSequence(c, "sameoperand", [][]int{{3}, {2, 3}, {2, 1, 3}, {5, 2}}, c03Ops, false)
 	shapes := append(enum.ShapeSet(c.Thorough()), longShapes(c.Thorough())...)
 	unaryOps := []ref.Op{}
 	for _, a := range []float64{-1.5, 0, 2} {
@@ -518,7 +524,119 @@ func statTol(kind string, xs []float64, exp float64) float64 {
 	return math.Abs(exp)*rel + floor + 1e-300
 }
 
+// sameOperandSequence: ONE tensor object goes through a list of operations,
+// forwards, backwards and forwards again; every result is compared with the
+// model (a cache or scratch area kept on the operand must not leak from one
+// operation into the next).
+func sameOperandSequence(c *core.Ctx, prefix string, shapes [][]int, opsOf func(s []int) []ref.Op, exact bool) {
+	for _, s := range shapes {
+		ops := opsOf(s)
+		for start := 0; start < len(ops); start++ {
+			s, start := s, start
+			c.Case(fmt.Sprintf("%s/%v/from%d", prefix, s, start), true, func() core.Verdict {
+				var x *ref.T
+				if exact {
+					x = enum.Labels(s, 0)
+				} else {
+					x = enum.Generic(s, 59, 0.5, 3, true)
+				}
+				rx := rt.Make(x, false)
+				other := rt.Make(x, false)
+				order := []int{}
+				for i := 0; i < len(ops); i++ {
+					order = append(order, (start+i)%len(ops))
+				}
+				for i := len(ops) - 1; i >= 0; i-- {
+					order = append(order, (start+i)%len(ops))
+				}
+				for _, oi := range order {
+					op := ops[oi]
+					in := []*ref.T{x}
+					rin := []tensor.Tensor{rx}
+					if op.Arity() == 2 {
+						in = append(in, x)
+						rin = append(rin, other)
+					} else if op.K == "Concat" {
+						in = append(in, x)
+						rin = append(rin, rx)
+					}
+					exp, ok := ref.Eval(op, in)
+					if !ok {
+						return core.Fail("HARNESS: invalid op %s on %v", op, s)
+					}
+					got, err := rt.Apply(op, rin)
+					if err != nil {
+						return core.Fail("%s: %v", op, err)
+					}
+					g := rt.Read(got)
+					var same bool
+					var msg string
+					if exact {
+						same, msg = core.ExactEq(g, exp)
+					} else {
+						same, msg = core.Close(g, exp, scaleOf(x, exp))
+					}
+					if !same {
+						return core.Fail("%s on a %v tensor object that already went through other operations: %s", op, s, msg)
+					}
+					if m := wellFormed(got, g); m != "" {
+						return core.Fail("%s: %s", op, m)
+					}
+				}
+				if ok, msg := core.ExactEq(rt.Read(rx), x); !ok {
+					return core.Fail("operand changed: %s", msg)
+				}
+				return core.Pass()
+			})
+		}
+	}
+}
+
+// c05SameOperand: ONE tensor object is reduced along every ordered pair of
+// dimensions (longer first and shorter first) with every reducer, and globally
+// in between: results must not depend on what was computed from the operand before.
+func c05SameOperand(c *core.Ctx) {
+	shapes := [][]int{{3, 2}, {2, 3}, {4, 2, 3}, {2, 5, 3}, {3, 1, 4}, {2, 2, 2, 3}, {7, 2}}
+	for _, s := range shapes {
+		for d1 := range s {
+			for d2 := range s {
+				s, d1, d2 := s, d1, d2
+				c.Case(fmt.Sprintf("sameoperand/%v/%d,%d", s, d1, d2), true, func() core.Verdict {
+					x := enum.Generic(s, 58, 0.5, 4, true)
+					rx := rt.Make(x, false)
+					for round := 0; round < 2; round++ {
+						for _, d := range []int{d1, d2} {
+							for _, k := range ref.AlongKinds {
+								op := ref.Op{K: k, Dim: d}
+								exp, _ := ref.Eval(op, []*ref.T{x})
+								got, err := rt.Apply(op, []tensor.Tensor{rx})
+								if err != nil {
+									return core.Fail("%s: %v", op, err)
+								}
+								if ok, msg := core.Close(rt.Read(got), exp, scaleOf(x)*scaleOf(x)*float64(s[d])); !ok {
+									return core.Fail("%s on a %v tensor that was already reduced along dim %d (round %d): %s", op, s, d1, round, msg)
+								}
+							}
+							if got, exp := rx.Sum(), ref.Stat("Sum", x.V); math.Abs(got-exp) > 1e-9*float64(len(x.V))*scaleOf(x) {
+								return core.Fail("Sum() after Along reductions: %v, expected %v", got, exp)
+							}
+							if got, exp := rx.Var(), ref.Stat("Var", x.V); math.Abs(got-exp) > statTol("Var", x.V, exp) {
+								return core.Fail("Var() after Along reductions: %v, expected %v", got, exp)
+							}
+						}
+					}
+					if ok, msg := core.ExactEq(rt.Read(rx), x); !ok {
+						return core.Fail("operand changed: %s", msg)
+					}
+					return core.Pass()
+				})
+			}
+		}
+	}
+}
+
 func checkC05(c *core.Ctx) {
+	c05SameOperand(c)
 	kinds := []string{"Sum", "Max", "Min", "Avg", "Var", "Std", "Mean"}
 	global := func(t tensor.Tensor, k string) float64 {
 		switch k {
